@@ -323,6 +323,12 @@ func exec(c vh.Case, o *vh.Out) {
 			if strings.Contains(strings.Join(c.Ops, "\n"), "u:1:0:- ") {
 				mo.on = false
 			}
+			if hasForeign {
+				// keys planted behind the blockstore's back (case variants of one multihash, the namespace
+				// root = key of the empty multihash, ...) are outside the property: model diff only
+				mo.on = false
+				o.Kind("monitor-off-foreign-keys")
+			}
 			o.Kind(fmt.Sprintf("cfg-wt%d-np%d-id%d", b2i(wt), b2i(np), b2i(idw)))
 			if !mo.on {
 				o.Kind("monitor-off-nonfunctional-pool")
@@ -589,7 +595,7 @@ func keysCancel(ctx context.Context, bs blockstore.Blockstore, n int, mo *monito
 	got := 0
 	for k := range ch {
 		h := string(k.Hash())
-		if seen[h] {
+		if seen[h] && !foreign {
 			o.Fail("allkeys-duplicate", "key %x delivered twice", h)
 		}
 		seen[h] = true
